@@ -193,18 +193,18 @@ fn ref_delta(id: usize, d: i32) {
 }
 
 unsafe fn vt_clone(data: *const ()) -> RawWaker {
-    ref_delta(data as usize - 1, 1);
+    ref_delta(data.addr() - 1, 1);
     RawWaker::new(data, &VTABLE)
 }
 unsafe fn vt_wake(data: *const ()) {
-    record_wake(data as usize - 1);
-    ref_delta(data as usize - 1, -1);
+    record_wake(data.addr() - 1);
+    ref_delta(data.addr() - 1, -1);
 }
 unsafe fn vt_wake_by_ref(data: *const ()) {
-    record_wake(data as usize - 1);
+    record_wake(data.addr() - 1);
 }
 unsafe fn vt_drop(data: *const ()) {
-    ref_delta(data as usize - 1, -1);
+    ref_delta(data.addr() - 1, -1);
 }
 
 static VTABLE: RawWakerVTable = RawWakerVTable::new(vt_clone, vt_wake, vt_wake_by_ref, vt_drop);
@@ -213,13 +213,13 @@ static VTABLE: RawWakerVTable = RawWakerVTable::new(vt_clone, vt_wake, vt_wake_b
 pub fn make_waker(id: usize) -> Waker {
     assert!(id < MAX_WAKERS);
     ref_delta(id, 1);
-    unsafe { Waker::from_raw(RawWaker::new((id + 1) as *const (), &VTABLE)) }
+    unsafe { Waker::from_raw(RawWaker::new(std::ptr::without_provenance::<()>(id + 1), &VTABLE)) }
 }
 
 /// Decodes the id of a harness waker (used on snapshot entries).
 pub fn waker_id(w: &Waker) -> Option<usize> {
     if std::ptr::eq(w.vtable(), &VTABLE) {
-        Some(w.data() as usize - 1)
+        Some(w.data().addr() - 1)
     } else {
         None
     }
